@@ -351,7 +351,9 @@ def gen_behaviours(cfg_text, workdir, tag, workers=6, timeout=1800, limit=None, 
         beh = rng.sample(beh, limit)
     scs = []
     for i, b in enumerate(beh):
-        scs.append({"id": f"gen-{tag}-{i}", "seed": 0, "horizon": 1000, "clients": b["prog"], "decisions": b["dec"]})
+        # (after the dictated schedule the executor goes on by itself - a task the specification considers blocked may
+        # be runnable; bounded, because a configuration with an interval timer never comes to rest by itself)
+        scs.append({"id": f"gen-{tag}-{i}", "seed": 0, "horizon": 1000, "clients": b["prog"], "decisions": b["dec"], "max_steps": len(b["dec"]) + 60})
     return scs, {"states": int(m.group(2)) if m else 0, "transitions": int(m.group(1)) if m else 0, "behaviours": total, "replayed": len(scs)}
 
 
